@@ -26,7 +26,21 @@
 //! Deviations from DESIGN.md: none of substance (per-partition statistics via `StatisticsContext`; the registry is
 //! exercised both through the optimizer switch and directly).
 //!
-//! Sensitivity probes: see the end of this header.
+//! Reporting: statistics flow upwards, so only the LOWEST violating nodes of a case are reported (root causes); each is
+//! keyed `exact-[partition-|registry-]<statistic>@<Operator>[qualifier]` unless one of the specific signatures applies.
+//! Known findings (open): `exact-min_max@DataSourceExec[parquet+cast]` (CAST keeps Exact min/max — WRONG RESULT for
+//! max(CAST(x AS VARCHAR)) over Parquet, fix verified), `join-output-keeps-exact-column-statistics`,
+//! `file-scan-partition-statistics-under-work-stealing`, `file-scan-partition-statistics-ignore-predicate`,
+//! `partitioned-topk-sort-statistics` (fixes verified), `exact-num_rows@DataSourceExec[parquet+limit]`,
+//! `exact-num_rows@DataSourceExec[memory+limit]`, `exact-min_max@UnionExec`, `exact-min_max@FilterExec`,
+//! `exact-partition-min_max@AggregateExec[Partial+lim]`, `exact-partition-null_count@HashJoinExec[mark]` (no repair
+//! proposed). The work-stealing case is racy and lives in regressions/C29/c29-known/ (not replayed as a regression).
+//!
+//! Sensitivity probes (probes.diff, `VFW_MUT=`):
+//! * `filter-exact` — FilterExec keeps its input's Exact row count: CAUGHT at quick tier (17 cases: "FilterExec: id@0 = a@1 —
+//!   num_rows is reported as Exact(1) but 0 rows were produced").
+//! * `limit-skip` — GlobalLimitExec statistics ignore OFFSET: first run masked by a residual finding (mark joins, since
+//!   recorded); the re-run was cancelled (time) — verdict open.
 use datafusion::arrow::array::{Array, ArrayRef, RecordBatch, make_comparator};
 use datafusion::arrow::compute::SortOptions;
 use datafusion::common::stats::Precision;
@@ -405,11 +419,13 @@ fn classify(n: &WalkNode, scope: Scope, msg: &str, stealing: bool) -> Option<Str
         let d = walk::one_line_full(p.as_ref());
         p.name() == "DataSourceExec" && d.contains("file_type=parquet") && !d.contains("file_groups={1 group")
     };
-    if scope == Scope::Partition && walk::subtree_has(&n.plan, &parquet_with_predicate) {
+    // both file-scan signatures are keyed on the scan node itself (only the lowest violating node of a case is reported,
+    // so a violating scan is always its own root cause; violations of operators above a clean scan are NOT filed here)
+    if scope == Scope::Partition && parquet_with_predicate(&n.plan) {
         // known finding: per-partition statistics of a file scan ignore its predicate
         return Some("file-scan-partition-statistics-ignore-predicate".into());
     }
-    if scope == Scope::Partition && stealing && walk::subtree_has(&n.plan, &parquet_multi_group) {
+    if scope == Scope::Partition && stealing && parquet_multi_group(&n.plan) {
         // known finding: per-partition statistics of a file scan stay Exact although sibling partitions share the files
         return Some("file-scan-partition-statistics-under-work-stealing".into());
     }
@@ -425,6 +441,11 @@ fn classify(n: &WalkNode, scope: Scope, msg: &str, stealing: bool) -> Option<Str
         let d = walk::one_line_full(n.plan.as_ref());
         d.contains("join_type=LeftMark") || d.contains("join_type=RightMark")
     };
+    if mark_join && scope == Scope::Partition && column_stat {
+        // known finding: a CollectLeft / nested-loop mark join reports the whole preserved side's column statistics for
+        // every output partition although one partition only emits the marked rows
+        return Some("mark-join-partition-statistics-of-preserved-side".into());
+    }
     if column_stat && is_join(&n.plan) && !mark_join {
         // known finding: joins hand their inputs' column statistics on unchanged (Exact included)
         return Some("join-output-keeps-exact-column-statistics".into());
@@ -443,6 +464,7 @@ fn classify(n: &WalkNode, scope: Scope, msg: &str, stealing: bool) -> Option<Str
         "ProjectionExec" => (if d.contains("CAST(") && stat == "min_max" { "[cast]" } else { "" }).to_string(),
         x if x.starts_with("SortExec") => (if d.contains("TopK(fetch=") { "[topk]" } else { "" }).to_string(),
         x if x.contains("Join") => (if mark_join { "[mark]" } else { "" }).to_string(),
+        "CoalescePartitionsExec" => (if d.contains("fetch=") { "[fetch]" } else { "" }).to_string(),
         "AggregateExec" => {
             let mode = d.split("mode=").nth(1).and_then(|r| r.split(',').next()).unwrap_or("");
             format!("[{mode}{}]", if d.contains("lim=[") { "+lim" } else { "" })
